@@ -105,12 +105,16 @@ def generate(ctx):
                     continue
                 used.add((kind, t))
                 if kind == TIMESIG:
-                    n_, d_ = rng.choice([(4, 4), (3, 4), (6, 8), (2, 2), (7, 8)])
+                    n_, d_ = G.any_sig(rng)
                     extras.append(pm(TIMESIG, 0, t, num=n_, den=d_))
                 else:
                     extras.append(pm(KEYSIG, 0, t, key=rng.randrange(15)))
             a = G.notes_to_abs(notes, extras, cap=None)
-            rels.append(G.abs_to_rel(a))
+            r_ = G.abs_to_rel(a)
+            if rng.random() < 0.3:
+                r_ = G.unconsolidate(rng, r_)
+                ctx.count("rel:unconsolidated")
+            rels.append(r_)
         ctx.case(rels, k > 1 or bool(used))
         ctx.count("sequences:%d" % k)
         ctx.check("save_load", {"rels": rels})
